@@ -17,7 +17,7 @@ ASSUMPTIONS = [
     "case-insensitive cases use only characters on which str.upper, str.lower, str.casefold and re.IGNORECASE agree",
 ]
 GATES = ["mon.C07.get", "mon.C07.roundtrip_abs", "mon.C07.roundtrip_rel", "C07.err.ResolverError", "C07.err.RootResolverError", "C07.err.ChildResolverError",
-         "C07.relaxed_miss_first", "C07.relaxed_miss_middle", "C07.relaxed_miss_last", "C07.ignorecase_hit", "C07.sep_other", "C07.wildcard_chars_in_names", "C07.after_mutation", "C07.option_attributes_reassigned"]
+         "C07.relaxed_miss_first", "C07.relaxed_miss_middle", "C07.relaxed_miss_last", "C07.ignorecase_hit", "C07.sep_other", "C07.wildcard_chars_in_names", "C07.after_mutation", "C07.option_attributes_reassigned", "C07.tree_with_symlinks", "C07.tuple_valued_pathattr"]
 
 _CLS = {}
 
@@ -204,6 +204,10 @@ def run(ctx):
             pathattr = "id"
             if r % 6 == 0:
                 names = list(range(100, 100 + n))  # int-valued path attribute
+        if r % 11 == 5 and kind in ("Node", "AnyNode") and sep not in "(),' ":
+            # non-string path attributes (tuples): compared as str(value); they also appear in error messages
+            names = [("t%d" % i,) if i % 2 else ("t", i) for i in range(n)]
+            ctx.count("C07.tuple_valued_pathattr")
         nodes = build(par, names, kind, sep, pathattr)
         idmap = {id(o): i for i, o in enumerate(nodes)}
         snames = [str(x) for x in names]
@@ -228,7 +232,44 @@ def run(ctx):
             for relax in (False, True):
                 ctx.case((r, s, p, ic, relax), nontrivial=p != "", sample=dict(case, start=s, path=p, ignorecase=ic, relax=relax) if (r * 30 + q) % 4001 == 0 else None)
                 check_get(ctx, lib, nodes, idmap, par, ch, names, s, p, sep, ic, relax, case, pathattr)
+    symlink_trees(ctx, lib)
     histories(ctx, lib)
+
+
+def symlink_trees(ctx, lib):
+    """Trees that contain symlink nodes (their path attribute is forwarded from the target), resolved through a
+    public and through an underscore-prefixed path attribute."""
+    from anytree import Node, SymlinkNode
+
+    T = ctx.tier == "thorough"
+    for r in range((2000 if T else 64) // ctx.nshards + 1):
+        rng = ctx.rng("symlink", r)
+        n = rng.randint(2, 9)
+        par, _ = gen.random_tree(rng, n)
+        ch = gen.children_of(par)
+        names = gen.unique_sibling_names(rng, ch, sep="/", hostile=False, ignorecase=False)
+        nodes = []
+        for i in range(n):
+            if i and i % 3 == 2:
+                nodes.append(SymlinkNode(Node(names[i], _key=names[i], key=names[i])))
+            else:
+                nodes.append(Node(names[i], _key=names[i], key=names[i]))
+        for i, p in enumerate(par):
+            if p is not None:
+                nodes[i].parent = nodes[p]
+        idmap = {id(o): i for i, o in enumerate(nodes)}
+        ctx.count("C07.tree_with_symlinks")
+        for pathattr in ("name", "_key", "key"):
+            case = {"kind": "symlink-mix", "sep": "/", "par": list(par), "names": names, "pathattr": pathattr}
+            ctx.case(("symlink", r, pathattr))
+            if not roundtrips(ctx, lib, nodes, idmap, par, ch, names, "/", False, case, pathattr):
+                return
+            for q in range(8):
+                s_ = rng.randrange(n)
+                p_ = "/".join(rng.choice(names + ["..", ".", "zz"]) for _ in range(rng.randint(1, 3)))
+                for relax in (False, True):
+                    if not check_get(ctx, lib, nodes, idmap, par, ch, names, s_, p_, "/", False, relax, case, pathattr):
+                        return
 
 
 def histories(ctx, lib):
